@@ -73,15 +73,16 @@ KNOWN_CLASSES = {
 
 PROPS = {
     "C09": {
-        "lean_modules": ["TableauVerif.Props.C09"],
+        "lean_modules": ["TableauVerif.Props.C09", "TableauVerif.Props.C09Doc"],
         "oracles": ["c09.doc", "c09.known"],
         "streams": [
             ("e2e.C09.documents", 360, 15000, 8),
             ("corr.importer.xmlToNode", 6000, 200000),
+            ("corr.confgen.docParse", 6000, 200000),
         ],
         "assumptions": [
             "modelled: the XML importer's data-document conversion (parseXMLNode, confgen branch): gathering of repeated child elements, attributes as scalar children, text-only elements; names used both for text-only and for structured occurrences under one parent are outside the model (`unmodelled`, counted as drift); the YAML and XML tokenisers (yaml.v3, go-xmldom) are trusted libraries",
-            "the document parser proper (confgen/document_parser.go, protogen/document_parser.go) is not modelled: faithfulness is decided by the independent walker of e2e.C09.documents, which looks fields up by their (tableau.field).name option and compares every stated scalar, list, map and struct, and checks that nothing else is populated (partial)",
+            "confgen's document parser is modelled (Model.DocParser: scalars, in-cell and cross-cell structs, lists, maps incl. virtual key nodes, optional fields, uniqueness, E2014/E2018/E2005) and compared with the real parser on generated descriptors and node trees (corr.confgen.docParse); unions, well-known message fields and default values are outside the model; protogen's document parser (schema documents) is not modelled: faithfulness of whole conversions is decided by the independent walker of e2e.C09.documents, which looks fields up by their (tableau.field).name option and compares every stated scalar, list, map and struct, and checks that nothing else is populated (partial)",
             "schema vocabulary exercised: scalars (9 kinds incl. a predefined enum), structs, scalar lists, in-cell lists, struct lists, scalar maps, struct maps (YAML), in-cell structs, optional fields at every level, nesting depth 3; YAML error positions of corrupted numeric scalars at any depth",
         ],
     },
